@@ -137,7 +137,17 @@ func (r result) full() string {
 	return r.key()
 }
 
-func (e *rt) run(src string) result {
+// isPanic: a Go panic, escaped or recovered by the interpreter itself.
+func (r result) isPanic() bool {
+	return r.IsErr && (r.Cond == "<go-panic>" || r.Cond == lisp.CondInternalPanic)
+}
+
+func (e *rt) run(src string) (res result) {
+	defer func() {
+		if p := recover(); p != nil {
+			res = result{IsErr: true, Cond: "<go-panic>", Msg: fmt.Sprint(p)}
+		}
+	}()
 	e.Err.Reset()
 	e.tick = 0
 	v := e.LoadString("c07", src)
@@ -152,16 +162,9 @@ func (e *rt) run(src string) result {
 	return result{Tree: canonGensyms(raw), Raw: raw, Out: out}
 }
 
-// runFresh evaluates src in a fresh runtime.  A Go panic escaping the
-// interpreter is reported as an error result of its own class.
-func runFresh(src string) (res result) {
-	defer func() {
-		if p := recover(); p != nil {
-			res = result{IsErr: true, Cond: "<go-panic>", Msg: fmt.Sprint(p)}
-		}
-	}()
-	return newRT().run(src)
-}
+// runFresh evaluates src in a fresh runtime (a Go panic escaping the
+// interpreter is an error result of its own class, see run).
+func runFresh(src string) result { return newRT().run(src) }
 
 // confirm re-runs a disagreeing check 5x in fresh runtimes; bad must hold
 // every time for the disagreement to be reported.
